@@ -20,11 +20,14 @@ ABSENT = -1
 
 
 UPPER_TYPES = set()       # set by a driver for the duration of one history
+V7_TYPES = set()          # likewise: types whose every identifier is a version-7 UUID
 
 
 def sid(n):
     # ids ending in 5..9 are UUIDv5-shaped (legal in 2.1, and for content that is not validated); the 2.0 type keeps UUIDv4
     ver = "5" if (n % 10 >= 5 and n // 10 not in V20_TYPES) else "4"
+    if n // 10 in V7_TYPES and n // 10 not in V20_TYPES:
+        ver = "7"           # a UUID of a later RFC version (legal in STIX 2.1: any UUID of the RFC variant)
     u = "%08x-1111-%s111-8111-1111111111ab" % (n % 10, ver)
     if n // 10 in UPPER_TYPES:        # identifiers whose UUID is written with upper-case hex letters (accepted by the library in both spec versions)
         u = u.upper()
@@ -145,11 +148,11 @@ def conc_val(prop, v, rng=None):
 def conc_filter(f, rng=None):
     from stix2 import Filter
     val = f["val"]
-    if f["op"] == "in":
+    if f["op"] in ("in", "=seq", "!=seq"):
         val = [conc_val(f["prop"], x, rng) for x in sorted(val)]
     else:
         val = conc_val(f["prop"], val, rng)
-    return Filter(PROPS[f["prop"]], f["op"], val)
+    return Filter(PROPS[f["prop"]], f["op"].replace("seq", ""), val)
 
 
 def in_form(form, dicts, v_bundle="2.1"):
